@@ -1,6 +1,9 @@
 (** C06 — Frames on the wire: intact, within max-frame-size, under any fragmentation. *)
 From FV Require Import Base.Bytes Frame.Transfer Lib.LengthDelimited Proofs.FrameProofs Proofs.LdProofs
   Tie.Tie_FrameConsts Gen.FrameConsts.
+From Coq Require Import List.
+From FV Require Import Codec.Value Codec.Composite Codec.CompositeSpec Frame.AmqpFrame Proofs.AmqpFrameProofs.
+Import ListNotations.
 Open Scope N_scope.
 
 (** A transfer with a payload of any size towards a peer that advertised any
@@ -71,3 +74,37 @@ Example C06_example :
   | None => False
   end.
 Proof. vm_compute. reflexivity. Qed.
+
+(** ** the frame codec: what the encoder writes for a frame, the decoder reads as that frame
+
+    [enc_frame] / [dec_frame] (Frame/AmqpFrame.v) model FrameEncoder / FrameDecoder of
+    frames/amqp.rs on the bytes after the size field: header (doff 2, type 0, channel),
+    the performative through the typed layer (Codec/Composite.v: derive macros,
+    DescribedAccess, the Performative enum), the payload.  For every channel, every
+    performative of the protocol with any admissible field vector, and - for a transfer -
+    any payload: decoding the encoder's bytes gives back the channel, the performative with
+    exactly those fields, and exactly the payload. *)
+Theorem C06_frame_roundtrip :
+  forall f b fuel,
+    f_channel f < 65536 -> body_ok (f_body f) ->
+    (match f_body f with
+     | FPerf _ vs _ => Forall (fun v => (depth v <= fuel)%nat) vs /\ (1 <= fuel)%nat
+     | FEmpty => True end) ->
+    enc_frame f = Some b -> dec_frame fuel b = Ok f.
+Proof. exact frame_roundtrip. Qed.
+Print Assumptions C06_frame_roundtrip.
+
+(** a frame of another type, or with an extended header, or shorter than its header is refused;
+    four header bytes and nothing else are the heartbeat frame *)
+Theorem C06_frame_header_rules :
+  (forall fuel doff ftype c1 c0 body, (ftype <> 0 \/ doff <> 2) -> exists e, dec_frame fuel (doff :: ftype :: c1 :: c0 :: body) = Err e) /\
+  (forall fuel bs, (length bs < 4)%nat -> exists e, dec_frame fuel bs = Err e) /\
+  (forall fuel c1 c0, dec_frame fuel [2; 0; c1; c0] = Ok {| f_channel := from_be [c1; c0]; f_body := FEmpty |}).
+Proof. exact (conj header_rules (conj short_frame_refused heartbeat_frame)). Qed.
+Print Assumptions C06_frame_header_rules.
+
+Example C06_frame_example :
+  body_ok (f_body begin_frame) /\
+  enc_frame begin_frame = Some [2; 0; 0; 3; 0; 83; 17; 192; 14; 4; 64; 82; 1; 112; 0; 0; 8; 0; 112; 0; 0; 8; 0] /\
+  dec_frame 5 [2; 0; 0; 3; 0; 83; 17; 192; 14; 4; 64; 82; 1; 112; 0; 0; 8; 0; 112; 0; 0; 8; 0] = Ok begin_frame.
+Proof. exact begin_frame_example. Qed.
